@@ -2026,24 +2026,28 @@ class MatrixBase:
 
     def _mat_mul(self, other: 'MatrixBase') -> None:
         """Rotate myself by the other matrix."""
+        # The other matrix may be ourselves (m @= m), so read it out before assigning anything.
+        o_aa, o_ab, o_ac = other._aa, other._ab, other._ac
+        o_ba, o_bb, o_bc = other._ba, other._bb, other._bc
+        o_ca, o_cb, o_cc = other._ca, other._cb, other._cc
         # We don't use each row after assigning to the set, so we can re-assign.
         # 3-tuple unpacking is optimised.
         self._aa, self._ab, self._ac = (
-            self._aa * other._aa + self._ab * other._ba + self._ac * other._ca,
-            self._aa * other._ab + self._ab * other._bb + self._ac * other._cb,
-            self._aa * other._ac + self._ab * other._bc + self._ac * other._cc,
+            self._aa * o_aa + self._ab * o_ba + self._ac * o_ca,
+            self._aa * o_ab + self._ab * o_bb + self._ac * o_cb,
+            self._aa * o_ac + self._ab * o_bc + self._ac * o_cc,
         )
 
         self._ba, self._bb, self._bc = (
-            self._ba * other._aa + self._bb * other._ba + self._bc * other._ca,
-            self._ba * other._ab + self._bb * other._bb + self._bc * other._cb,
-            self._ba * other._ac + self._bb * other._bc + self._bc * other._cc,
+            self._ba * o_aa + self._bb * o_ba + self._bc * o_ca,
+            self._ba * o_ab + self._bb * o_bb + self._bc * o_cb,
+            self._ba * o_ac + self._bb * o_bc + self._bc * o_cc,
         )
 
         self._ca, self._cb, self._cc = (
-            self._ca * other._aa + self._cb * other._ba + self._cc * other._ca,
-            self._ca * other._ab + self._cb * other._bb + self._cc * other._cb,
-            self._ca * other._ac + self._cb * other._bc + self._cc * other._cc,
+            self._ca * o_aa + self._cb * o_ba + self._cc * o_ca,
+            self._ca * o_ab + self._cb * o_bb + self._cc * o_cb,
+            self._ca * o_ac + self._cb * o_bc + self._cc * o_cc,
         )
 
     def _vec_rot(self, vec: VecBase) -> None:
